@@ -1,4 +1,4 @@
-CONSTANTS Ids07 = {1, 2, 11, 22}
+CONSTANTS Ids07 = {1, 2, 11, 22, 27}
 SPECIFICATION Spec
 INVARIANTS Check
 CHECK_DEADLOCK FALSE
